@@ -178,10 +178,11 @@ def on_idents(p, r, exc, acc):
 
 # ------------------------------------------------------------------ (c) defaults of a def read names of the template's namespace
 PLACEMENTS = {
-    "nested-def": '<%%def name="outer()"><%%def name="f(%s)">${repr((%s))}</%%def>${f(%s)}</%%def>${outer()}',
-    "nested-def-in-block": '<%%block name="blk"><%%def name="f(%s)">${repr((%s))}</%%def>${f(%s)}</%%block>',
-    "def-in-call-body": '<%%def name="wrap()">${caller.body()}</%%def><%%call expr="wrap()"><%%def name="f(%s)">${repr((%s))}</%%def>${f(%s)}</%%call>',
-    "top-level-def": '<%%def name="f(%s)">${repr((%s))}</%%def>${f(%s)}',
+    "nested-def": '<%def name="outer()"><%def name="f(SIG)">${repr((SHOW))}</%def>${f(CALL)}</%def>${outer()}',
+    "nested-def-in-block": '<%block name="blk"><%def name="f(SIG)">${repr((SHOW))}</%def>${f(CALL)}</%block>',
+    "def-in-call-body": '<%def name="wrap()">${caller.body()}</%def><%call expr="wrap()"><%def name="f(SIG)">${repr((SHOW))}</%def>${f(CALL)}</%call>',
+    "call-body-args": '<%def name="wrap()">${caller.body(CALL)}</%def><%call expr="wrap()" args="SIG">${repr((SHOW))}</%call>',
+    "top-level-def": '<%def name="f(SIG)">${repr((SHOW))}</%def>${f(CALL)}',
 }
 DEFAULT_SITES = {
     # signature, names to show, call arguments
@@ -192,12 +193,13 @@ DEFAULT_SITES = {
     "positional-and-keyword-only": ("a=zz, *, k=yy", "a, k", ""),
     "default-in-lambda": ("a=lambda: zz", "a(),", ""),
     "default-comprehension": ("a=[e + zz for e in yy2]", "a,", ""),
+    "default-named-like-the-parameter": ("zz=zz, yy=yy + 1", "zz, yy", ""),      # the closure idiom: def f(x=x)
 }
 
 
 def tagsig_template(placement, site):
     sig, show, call = DEFAULT_SITES[site]
-    return PLACEMENTS[placement] % (sig, show, call)
+    return PLACEMENTS[placement].replace("SIG", sig).replace("SHOW", show).replace("CALL", call)
 
 
 def tagsig_expected(site):
